@@ -3,20 +3,28 @@
   `<model> <op> <args…>`; see harness/props/*.py for the per-model protocol.
 -/
 import NcVerif.Driver.CapsD
+import NcVerif.Driver.FramingD
+import NcVerif.Driver.SessionD
 open NcVerif.Driver
 
-def stepLine (line : String) : String :=
-  match (line.trimAscii.toString.splitOn " ").filter (· ≠ "") with
-  | "caps" :: rest => capsCmd rest
-  | _ => "bad-model"
+structure DState where
+  sess : SessD := {}
 
-partial def loop (h : IO.FS.Stream) (out : IO.FS.Stream) : IO Unit := do
+def stepLine (st : DState) (line : String) : DState × String :=
+  match (line.trimAscii.toString.splitOn " ").filter (· ≠ "") with
+  | "caps" :: rest => (st, capsCmd rest)
+  | "fr" :: rest => (st, framingCmd rest)
+  | "ss" :: rest => let (s', out) := sessionCmd st.sess rest; ({ st with sess := s' }, out)
+  | _ => (st, "bad-model")
+
+partial def loop (h : IO.FS.Stream) (out : IO.FS.Stream) (st : DState) : IO Unit := do
   let line ← h.getLine
   if line.isEmpty then return ()
-  out.putStrLn (stepLine line)
-  loop h out
+  let (st', o) := stepLine st line
+  out.putStrLn o
+  loop h out st'
 
 def main : IO Unit := do
   let out ← IO.getStdout
-  loop (← IO.getStdin) out
+  loop (← IO.getStdin) out {}
   out.flush
